@@ -18,9 +18,9 @@ RULE = ('case = one call of type_infer: skeletons obtained by erasing generated 
 ASSUMPTIONS = ['the declared type of a constant is read from theory.thy term_sig / context defs (data tables)',
                'exact recovery is demanded only when inference succeeds; failure must be TypeInferenceException '
                '(or TheoryException for unknown constants)']
-REQUIRED = {'quick': {'ctx_hist_outer_inferences': 300, 'ctx_hist_inner_failed': 100, 'gen_deep_chain_terms': 300, 'calls_observed': 8000, 'returns_judged': 3000, 'gen_erasures': 2500, 'gen_illtyped': 300,
+REQUIRED = {'quick': {'late_clash_skeletons': 500, 'late_clash_refused': 100, 'late_clash_accepted': 100, 'ctx_hist_outer_inferences': 300, 'ctx_hist_inner_failed': 100, 'gen_deep_chain_terms': 300, 'calls_observed': 8000, 'returns_judged': 3000, 'gen_erasures': 2500, 'gen_illtyped': 300,
                       'lib_calls_observed': 1500, 'exact_recoveries': 800, 'hist_inferences': 200},
-            'thorough': {'ctx_hist_outer_inferences': 6000, 'ctx_hist_inner_failed': 2000, 'gen_deep_chain_terms': 6000, 'calls_observed': 150000, 'returns_judged': 60000, 'gen_erasures': 50000, 'gen_illtyped': 6000,
+            'thorough': {'late_clash_skeletons': 12000, 'late_clash_refused': 2500, 'late_clash_accepted': 2500, 'ctx_hist_outer_inferences': 6000, 'ctx_hist_inner_failed': 2000, 'gen_deep_chain_terms': 6000, 'calls_observed': 150000, 'returns_judged': 60000, 'gen_erasures': 50000, 'gen_illtyped': 6000,
                          'lib_calls_observed': 30000, 'exact_recoveries': 15000, 'hist_inferences': 5000}}
 SHARD_TIMEOUT = {'quick': 1200, 'thorough': 7200}
 NONE = ('none',)
@@ -388,6 +388,238 @@ def illtyped(ctx, rng, g, s):
     ctx.case(('illtyped2', sk2, ta, tb), nontrivial=True)
 
 
+# ------------------------------------------------------------------ directed family: clash / agreement decided late
+def hm_principal(sk, cvars, csvars, defs):
+    """Independent reference: principal typing of a skeleton by textbook substitution-based unification (with occurs
+    check) on shadows.  Returns ('untypable', reason, None) or ('typable', fully typed shadow term, determined?) where
+    `determined` says that no unification variable is left anywhere in the term."""
+    sub, n = {}, [0]
+
+    class Clash(Exception):
+        pass
+
+    def fresh():
+        n[0] += 1
+        return ('uv', n[0])
+
+    def walk(T):
+        while T[0] == 'uv' and T in sub:
+            T = sub[T]
+        return T
+
+    def occurs(v, T):
+        T = walk(T)
+        return T == v or (T[0] == 'tc' and any(occurs(v, a) for a in T[2]))
+
+    def unify(a, b):
+        a, b = walk(a), walk(b)
+        if a == b:
+            return
+        if a[0] == 'uv' or b[0] == 'uv':
+            if a[0] != 'uv':
+                a, b = b, a
+            if occurs(a, b):
+                raise Clash('occurs check')
+            sub[a] = b
+        elif a[0] == 'tc' and b[0] == 'tc' and a[1] == b[1] and len(a[2]) == len(b[2]):
+            for x, y in zip(a[2], b[2]):
+                unify(x, y)
+        else:
+            raise Clash('%s against %s' % (ty_str_uv(resolve(a)), ty_str_uv(resolve(b))))
+
+    def resolve(T):
+        T = walk(T)
+        if T[0] == 'tc':
+            return ('tc', T[1], tuple(resolve(a) for a in T[2]))
+        return T
+
+    def inst(T, m):
+        if T[0] in ('tv', 'stv'):
+            if T[1] not in m:
+                m[T[1]] = fresh()
+            return m[T[1]]
+        if T[0] == 'tc':
+            return ('tc', T[1], tuple(inst(a, m) for a in T[2]))
+        return T
+    free = {}
+
+    def go(s, bd):
+        k = s[0]
+        if k in ('var', 'svar'):
+            T = s[2]
+            if T == NONE:
+                T = (cvars if k == 'var' else csvars).get(s[1])
+                if T is None:
+                    T = free.setdefault((k, s[1]), fresh())
+            return (k, s[1], T), T
+        if k == 'const':
+            T = s[2]
+            if T == NONE:
+                d = declared_type(s[1], defs)
+                if d is None:
+                    raise Clash('unknown constant ' + s[1])
+                T = inst(d, {})
+            return (k, s[1], T), T
+        if k == 'comb':
+            f, Tf = go(s[1], bd)
+            a, Ta = go(s[2], bd)
+            R = fresh()
+            unify(Tf, S.fun(Ta, R))
+            return ('comb', f, a), R
+        if k == 'abs':
+            T = fresh() if s[2] == NONE else s[2]
+            b, Tb = go(s[3], (T,) + bd)
+            return ('abs', s[1], T, b), S.fun(T, Tb)
+        return s, bd[s[1]]
+
+    def fin(s):
+        k = s[0]
+        if k in ('var', 'svar', 'const'):
+            return (k, s[1], resolve(s[2]))
+        if k == 'comb':
+            return ('comb', fin(s[1]), fin(s[2]))
+        if k == 'abs':
+            return ('abs', s[1], resolve(s[2]), fin(s[3]))
+        return s
+
+    def has_uv(T):
+        return T[0] == 'uv' or (T[0] == 'tc' and any(has_uv(a) for a in T[2]))
+    try:
+        typed, _ = go(sk, ())
+    except Clash as e:
+        return 'untypable', str(e), None
+    typed = fin(typed)
+    return 'typable', typed, not any(has_uv(T) for T in S.term_types(typed))
+
+
+def ty_str_uv(T):
+    if T[0] == 'uv':
+        return '?%d' % T[1]
+    if T[0] == 'tc':
+        return '%s(%s)' % (T[1], ','.join(ty_str_uv(a) for a in T[2])) if T[2] else T[1]
+    return S.ty_str(T)
+
+
+LATE_TYPES = [S.NAT, S.BOOL, S.REAL, ('tc', 'list', (S.NAT,)), ('tv', 'a'), S.fun(S.NAT, S.NAT), ('tc', 'set', (S.NAT,)),
+              ('tc', 'list', (S.REAL,)), ('tv', 'b'), S.fun(S.NAT, S.BOOL)]
+
+
+def late_skeleton(rng):
+    """A skeleton in which a polymorphic constant (IF, plus, times, max, uminus, cons, append, insert) is applied to an
+    OLDER untyped thing - a bound variable whose binder type is erased (innermost or outer binder), or an undeclared
+    free / schematic variable seen earlier - and to an argument of declared type T, and the type of the result is then
+    met by something of declared type T2 (other side of an equation / comparison, argument of a declared function,
+    another polymorphic constant, element of a list or set).  T2 == T: well-typed and fully determined; T2 != T: no
+    typing exists.  Whether the uses agree is only decided by the LAST unification.  Returns (skeleton, vars, tag)."""
+    N = NONE
+    lT = lambda T: ('tc', 'list', (T,))
+    sT = lambda T: ('tc', 'set', (T,))
+    T = rng.choice(LATE_TYPES)
+    agree = rng.random() < 0.45
+    T2 = T if agree else rng.choice([X for X in LATE_TYPES if X != T])
+    decl = {'c': S.BOOL, 'y': T, 'ys': lT(T), 'Y': sT(T), 'z': T2, 'zs': lT(T2), 'Z': sT(T2),
+            'F': S.fun(T2, S.BOOL), 'G': S.fun(T2, T2), 'H': S.fun(lT(T2), S.BOOL), 'n': S.NAT}
+    v = lambda nm: ('var', nm, N)
+    C = lambda nm, *args: S.mk_comb(('const', nm, N), *args)
+    older = rng.choice(['bound', 'bound', 'bound', 'outer-bound', 'free-seen-earlier', 'svar-seen-earlier', 'two-bound'])
+    if older in ('bound', 'two-bound'):
+        o = ('bound', 0)
+    elif older == 'outer-bound':
+        o = ('bound', 1)
+    elif older == 'free-seen-earlier':
+        o = v('u')
+    else:
+        o = ('svar', 'u', N)
+    o2 = ('bound', 1) if older == 'two-bound' else o
+    # the polymorphic constant applied to the older thing and to something of declared type: (term, kind of result)
+    op2 = rng.choice(['plus', 'times', 'minus', 'max'])
+    cores = [(C('IF', v('c'), o, v('y')), 'elt'), (C('IF', v('c'), v('y'), o), 'elt'), (C(op2, o, v('y')), 'elt'),
+             (C(op2, v('y'), o), 'elt'), (C('IF', v('c'), C('uminus', o), v('y')), 'elt'),
+             (C('IF', v('c'), o, C('IF', v('c'), o2, v('y'))), 'elt'), (C(op2, C(op2, o, o2), v('y')), 'elt'),
+             (C('cons', o, v('ys')), 'list'), (C('append', C('cons', o, C('nil')), v('ys')), 'list'),
+             (C('IF', v('c'), C('cons', o, C('nil')), v('ys')), 'list'), (C('IF', v('c'), o, C('nil')), 'listself'),
+             (C('insert', o, v('Y')), 'set'), (C('IF', v('c'), C('cons', o2, C('nil')), C('cons', v('y'), C('nil'))), 'list'),
+             (C('IF', C('equals', o, v('y')), o2, o), 'elt')]
+    core, kind = rng.choice(cores)
+    other = {'elt': v('z'), 'list': v('zs'), 'listself': v('zs'), 'set': v('Z')}[kind]
+    if rng.random() < 0.15:
+        other = v(rng.choice(['z', 'zs', 'Z', 'y', 'ys', 'n']))          # wild: the reference decides
+    rel = rng.choice(['equals', 'equals', 'less_eq', 'less'])
+    uses = [C(rel, core, other), C(rel, other, core), C('equals', C('IF', v('c'), core, other), other),
+            C('equals', other, C(rng.choice(['plus', 'max']), core, other)), C(rel, C('IF', v('c'), other, core), core)]
+    if kind == 'elt':
+        uses += [('comb', v('F'), core), C('equals', ('comb', v('G'), core), v('z')), C('member', core, v('Z')),
+                 C('equals', C('cons', core, v('zs')), v('zs')), ('comb', v('H'), C('cons', core, C('nil')))]
+    elif kind in ('list', 'listself'):
+        uses += [('comb', v('H'), core), C('equals', C('append', core, v('zs')), v('zs'))]
+    body = rng.choice(uses)
+    if older in ('free-seen-earlier', 'svar-seen-earlier'):
+        # the undeclared variable gets its (bare) type variable before the polymorphic constant is met
+        first = rng.choice([C('equals', o, o), C('equals', ('abs', 'w', N, o), ('abs', 'w', N, o)), None])
+        sk = body if first is None else C(rng.choice(['conj', 'implies']), first, body)
+    elif older == 'bound':
+        sk = ('abs', 'x', N, body)
+        if rng.random() < 0.5:
+            sk = C(rng.choice(['all', 'exists']), sk)
+    elif older == 'outer-bound':
+        # %x. %w::nat. body[x]  - the inner binder is annotated, the outer one erased
+        sk = ('abs', 'x', N, ('abs', 'w', S.NAT, C('conj', body, C('equals', ('bound', 0), v('n')))))
+        if rng.random() < 0.5:
+            sk = C('all', ('abs', 'x', N, C('all', sk[3])))
+    else:
+        # two erased binders whose variables are tied to each other by the constant before either meets a declared type
+        sk = ('abs', 'x1', N, ('abs', 'x0', N, body))
+        if rng.random() < 0.5:
+            sk = C('all', ('abs', 'x1', N, C('exists', sk[3])))
+    return sk, decl, (older, kind, 'agree' if agree else 'clash')
+
+
+def judge_late(ctx, sk, decl, tag=None):
+    """run type_infer on one skeleton of the family and compare its verdict with the reference typing"""
+    from syntax import infertype
+    from logic import context
+    context.set_context(None, vars={n_: S.to_repo_type(T_) for n_, T_ in decl.items()})
+    verdict, typed, determined = hm_principal(sk, decl, {}, {})
+    ctx.count('late_clash_skeletons')
+    ctx.count('late_clash_reference:' + (verdict if verdict == 'untypable' else 'typable-determined' if determined else 'typable-undetermined'))
+    wit = {'skeleton': S.jsonable(sk), 'vars': {k: S.jsonable(T_) for k, T_ in decl.items()}, 'svars': {}, 'origin': 'late-clash',
+           'level': 'late', 'family': 'late-clash', 'tag': list(tag) if tag else None}
+    Mon.origin = 'late-clash'
+    Mon.expect, Mon.level = (typed, 'late') if verdict == 'typable' and determined else (None, None)
+    try:
+        r = infertype.type_infer(skeleton_term(sk))
+    except infertype.TypeInferenceException:
+        ctx.count('late_clash_refused')
+        if verdict == 'typable' and determined:
+            ctx.violation('infer:type-variable-joined-to-an-older-one-not-followed-after-binding:determined-skeleton-refused',
+                          'type inference raised on %s although it has the (fully determined) typing %s ; declared %s' % (
+                              S.tm_str(sk, True), S.tm_str(typed, True), {n_: S.ty_str(T_) for n_, T_ in decl.items()}), wit)
+        return 'refused'
+    except Exception as e:
+        ctx.count('late_clash_other_exception:' + type(e).__name__)
+        return 'error'
+    finally:
+        Mon.expect, Mon.level = None, None
+        Mon.origin = 'gen'
+    ctx.count('late_clash_accepted')
+    if verdict == 'untypable':
+        ctx.violation('infer:type-variable-joined-to-an-older-one-not-followed-after-binding:clashing-uses-accepted',
+                      'type inference accepted %s, which has no typing (%s) ; declared %s ; result %s' % (
+                          S.tm_str(sk, True), typed, {n_: S.ty_str(T_) for n_, T_ in decl.items()}, S.tm_str(S.tm_shadow(r), True)), wit)
+    return 'accepted'
+
+
+def run_late(ctx, count):
+    rng = ctx.rng
+    for k in range(count):
+        sk, decl, tag = late_skeleton(rng)
+        out = judge_late(ctx, sk, decl, tag)
+        ctx.count('late_clash_shape:%s:%s' % (tag[0], tag[2]))
+        ctx.case(('late-clash', sk, tuple(sorted(decl.items()))), nontrivial=True,
+                 sample={'skeleton': S.tm_str(sk, True), 'declared': {n_: S.ty_str(T_) for n_, T_ in decl.items() if n_ in ('y', 'z')},
+                         'type_infer': out} if k < 2 else None)
+
+
 def run_hist(ctx, spec):
     """W-HIST: what inference knows about a constant must come from the theory in force NOW - the same constant
     names are (re)declared at different types in a sequence of ad-hoc theories derived from `real`"""
@@ -540,6 +772,10 @@ def run_shard(ctx, spec):
         context.set_context(None, vars={k: S.to_repo_type(S.from_json(v)) for k, v in w.get('vars', {}).items()},
                             svars={k: S.to_repo_type(S.from_json(v)) for k, v in w.get('svars', {}).items()})
         Mon.origin = 'replay'
+        if w.get('family') == 'late-clash':
+            ctx.note('replay: late-clash family -> %s' % judge_late(ctx, sk, {k: S.from_json(v) for k, v in w.get('vars', {}).items()}))
+            ctx.case('replay', sample=S.tm_str(sk, True))
+            return
         try:
             infertype.type_infer(skeleton_term(sk))
         except Exception as e:
@@ -548,6 +784,7 @@ def run_shard(ctx, spec):
         return
     if spec['kind'] == 'gen':
         run_gen(ctx, spec)
+        run_late(ctx, max(40, spec['count'] // 6))
     elif spec['kind'] == 'hist':
         run_hist(ctx, spec)
         run_ctx_hist(ctx, spec['count'] * 3)
